@@ -540,6 +540,8 @@ class ObjWorld(Run):
             op["r"] = rng.choice([None] + list(range(self.n + 1)))
         if q in ("mul_c", "div"):
             op["c"] = [rng.choice([2.0, -1.5, 0.5]), rng.choice([0.0, 1.0])]
+            if q == "mul_c" and rng.random() < 0.25:
+                op["c"] = rng.choice([[0.0, 0.0], [1.0, 0.0], [-1.0, 0.0], [0.0, 1.0]])   # special scalars
         if q == "diagonalize":
             op["i0"] = rng.randrange(self.n)
             op["causal"] = rng.random() < 0.3
